@@ -195,7 +195,7 @@ impl WMCore {
 
     // Maps the index from the next level with a set bit.
     fn map_up_one(&self, index: usize, level: usize) -> Option<usize> {
-        self.levels[level].select(index - self.levels[level].count_zeros())
+        self.levels[level].select(index.checked_sub(self.levels[level].count_zeros())?)
     }
 
     // Maps the index from the next level with an unset bit.
